@@ -22,12 +22,14 @@ def gen(rng, maxdepth=6):
     for i in range(depth):
         k = rng.choice(KINDS)
         layers.append({"kind": k, "raises": (k in ("map", "flat_map") and rng.random() < 0.12),
-                       "max_attempts": rng.randint(1, 3), "count": rng.randint(1, 2)})
+                       "max_attempts": rng.randint(1, 3), "count": rng.randint(1, 2),
+                       # poll function: the call indices at which it raises (after it has been shown its descriptors)
+                       "poll_raise": (rng.choice([[0], [1], [0, 2], [0, 1]]) if (k == "poll" and rng.random() < 0.3) else [])})
     nsub = rng.randint(1, 4)
     subs = []
     for s in range(nsub):
         script = [rng.choice(["ok", "ok", "err"]) for _ in range(rng.randint(1, 4))] + ["ok"]
-        subs.append({"script": script, "v": rng.randrange(8)})
+        subs.append({"script": script, "v": s + 4 * rng.randrange(2)})      # distinct per submission
     return {"base": rng.choice(["sync", "pool"]), "workers": rng.randint(1, 3), "layers": layers, "subs": subs,
             "clients": rng.randint(1, 3)}
 
@@ -57,7 +59,7 @@ def wire(p, s):
 def execute(p, chooser):
     from more_executors import Executors
     from more_executors.futures import f_return
-    obs = {"params": p, "res": {}, "calls": {}, "raised": {}, "fncalls": {}}
+    obs = {"params": p, "res": {}, "calls": {}, "raised": {}, "fncalls": {}, "pollraise": []}
 
     def main():
         det.emit("case", None, repr(p))
@@ -83,7 +85,16 @@ def execute(p, chooser):
                 elif k == "flat_map":
                     ex = ex.with_flat_map(mkfn())
                 elif k == "poll":
-                    def poll_fn(ds, i=i):
+                    def poll_fn(ds, i=i, l=l, st={}):
+                        c = st.setdefault((id(obs), i), [0])
+                        kcall = c[0]
+                        c[0] += 1
+                        if kcall in l.get("poll_raise", []) and ds:
+                            shown = [d.result for d in ds]
+                            det.switch("poll")          # other threads may register further futures meanwhile
+                            e = CE(3000 + i * 16 + kcall)
+                            obs["pollraise"].append((i, kcall, e, shown))
+                            raise e
                         for d in ds:
                             d.yield_result(d.result * 16 + i)
                     ex = ex.with_poll(poll_fn, default_interval=1)
@@ -158,7 +169,30 @@ def monitor(r, obs):
         _runner["rp"] = lib.RunnerProc()
     rp = _runner["rp"]
     multi_retry = sum(1 for l in p["layers"] if l["kind"] == "retry")
+    # a raising poll call fails the futures it was shown - and only those.  Which submissions were shown to a
+    # failing call: the descriptor value at layer i is the callable's (distinct) value pushed through the
+    # value-transforming layers below i, each of which maps v to 16 v + index
+    affected = set()
+    pexc = {}
+    for (i, kcall, e, shown) in obs.get("pollraise", []):
+        below = sum(1 for l in p["layers"][:i] if l["kind"] in ("map", "flat_map", "poll"))
+        vs = set(x >> (4 * below) for x in shown if isinstance(x, int))
+        hit = set(s for s in range(len(p["subs"])) if p["subs"][s]["v"] in vs)
+        affected |= hit
+        pexc[id(e)] = (i, kcall, hit)
     for s in range(len(p["subs"])):
+        got = obs["res"].get(s)
+        if got is not None and got[0] == "err" and id(got[1]) in pexc and s not in pexc[id(got[1])][2]:
+            i, kcall, hit = pexc[id(got[1])]
+            out.append({"what": "submission %d failed with the exception of poll call %d of layer %d, which was shown only submissions %s"
+                                % (s, kcall, i, sorted(hit)), "detail": s, "pattern": "stack:foreign-poll-failure"})
+            continue
+        if s in affected:
+            # shown to a failing poll call: it carries that failure (or what a retry layer above made of it)
+            calls = obs["calls"].get(s, [])
+            if any(a != (s, "arg") for a in calls):
+                out.append({"what": "callable of submission %d invoked with %r" % (s, calls), "detail": s, "pattern": "stack:arguments"})
+            continue
         kind, val, inv, fnc = rp.ask("stack", wire(p, s))
         got = obs["res"].get(s)
         calls = obs["calls"].get(s, [])
